@@ -424,6 +424,14 @@ impl LexiconReader {
                 });
             }
 
+            if e.should_index() && e.right_id < 0 {
+                return ctx.err(BuildFailure::InvalidFieldSize {
+                    actual: e.right_id as u16 as _,
+                    expected: self.max_right as _,
+                    field: "right_id",
+                });
+            }
+
             if e.dic_form != WordId::INVALID {
                 ctx.transform(Self::validate_wid(e.dic_form, max_0, max_1, "dic_form"))?;
             }
